@@ -10,7 +10,8 @@ Restricted theorems (`_partial`) and what is missing:
 * `C08_specifiers_reject_partial` — rejection of every multiset outside C11 6.7.2p2 is proved for non-empty sequences
   without a repeated `signed`/`unsigned`.  chibicc accepts `signed signed int` (`counter |= SIGNED`) and the empty
   sequence (implicit int); the lead classed this as latitude (C08 quantifies over *valid* combinations).  The full
-  statement `C08_specifiers_reject_Statement` is refuted in Findings/C08.lean.
+  statement `C08_specifiers_reject_Statement` is refuted in Findings/C08.lean.  `C08_specifiers_exact` (full strength, all
+  non-empty sequences) states precisely what is accepted instead: the C11 table up to repeated `signed`/`unsigned`.
 * `C08_layout_partial`, `C08_types_partial` — model = spec outside the three known-finding regions (all inside `packed`):
   `PackedWithBitfield`, `PackedWithMemberAlign`, `PackedUnionBitfield`.  The full statements `C08_layout_Statement`,
   `C08_types_Statement` are refuted in Findings/C08.lean by the listed witnesses.
@@ -62,6 +63,21 @@ theorem C08_specifiers_exact_partial (ks : List Kw) (hne : ks ≠ []) (hnd : NoD
   cases h : c11Type ks with
   | some t => exact (C08_specifiers ks).2 t h
   | none => exact C08_specifiers_reject_partial ks hne hnd h
+
+/-- **C08 (specifiers, exact language).**  For *every* non-empty keyword sequence: chibicc decodes it as C11 6.7.2p2
+    decodes the sequence with repeated `signed`/`unsigned` dropped (`collapse`), type for type and diagnostic for
+    diagnostic.  So the accepted language is exactly the C11 table up to that one repetition (`counter |= SIGNED`),
+    and nothing else — no wrap-around of the 2-bit counters, no order dependence. -/
+theorem C08_specifiers_exact (ks : List Kw) (hne : ks ≠ []) :
+    declspecDecode ks = (match c11Type (collapse ks) with
+      | some t => .ok t
+      | none => .error .invalidType) := by
+  rw [decode_collapse ks]
+  exact C08_specifiers_exact_partial (collapse ks) (collapse_ne_nil hne) (noDup_collapse ks)
+
+example : collapse [.signed, .long, .signed, .unsigned] = [.signed, .long, .unsigned] ∧
+    declspecDecode [.signed, .long, .signed, .unsigned] = .error .invalidType ∧
+    declspecDecode [.signed, .long, .signed] = .ok .long := by decide
 
 -- non-vacuity: a valid permutation, an invalid sequence in scope, the wrap-around candidate
 example : c11Type [.long, .unsigned, .int, .long] = some .ulong ∧
